@@ -37,6 +37,7 @@ TABLE = {
  "task.wait_until returns 'none' only when nothing but exhausted time triggers was given": ("C15", "new subsystem: task.wait_until(time_trigger='once(2020/1/1 00:00)', mqtt_trigger='t/a') returned trigger_type 'none' at once"),
  "a done callback that raises no longer cancels the remaining done callbacks": ("C14", "task with done callbacks [cbRaise, cbA]: after cbRaise raised, cbA never ran"),
  "tasks started by service calls support done callbacks": ("C14", "@service function calling task.add_done_callback(task.current_task(), cb) failed with KeyError: the service task had no callback table"),
+ "a requirement with a malformed version is ignored regardless of line order": ("C20", "requirements lines ['p==notaversion', 'p==1.0'] selected 'notaversion' while ['p==1.0', 'p==notaversion'] selected 1.0"),
 }
 log = subprocess.run(["git", "-C", "/repo", "log", "--reverse", "--format=%h %s"], capture_output=True, text=True).stdout.strip().split("\n")
 fixed = []
